@@ -94,7 +94,12 @@ func (rt *libRT) temp(n, pollute int, salt float64) ad.MagicScalar {
 	if pollute == 0 {
 		return rt.newMagic(0)
 	}
-	r := rt.newMagic(7.25 + salt)
+	return rt.used(7.25+salt, n, pollute, salt)
+}
+
+// used: a scalar holding value v that was the result of an order-`pollute` computation over n variables.
+func (rt *libRT) used(v float64, n, pollute int, salt float64) ad.MagicScalar {
+	r := rt.newMagic(v)
 	r.Alloc(n, pollute)
 	for i := 0; i < n; i++ {
 		r.SetDerivative(i, -3.5-float64(i)-salt)
@@ -105,6 +110,26 @@ func (rt *libRT) temp(n, pollute int, salt float64) ad.MagicScalar {
 		}
 	}
 	return r
+}
+
+// activate: the routes by which scalars become the variables of a differentiation.
+func (rt *libRT) activate(route string, order int, mv []ad.MagicScalar) error {
+	switch route {
+	case "", "Variables":
+		return ad.Variables(order, mv...)
+	case "SetVariable":
+		for i := range mv {
+			if err := mv[i].SetVariable(i, len(mv), order); err != nil {
+				return err
+			}
+		}
+		return nil
+	case "vector.Variables":
+		return rt.asMagicV(mv).Variables(order)
+	case "matrix.Variables":
+		return rt.makeMat(mv, 1, len(mv)).(interface{ Variables(int) error }).Variables(order)
+	}
+	return fmt.Errorf("unknown activation route %q", route)
 }
 
 type runOut struct {
@@ -123,10 +148,14 @@ func (rt *libRT) run(p *Program, cs *Case, ext []ad.ConstScalar) (out runOut) {
 		mv := make([]ad.MagicScalar, n)
 		vars = make([]ad.ConstScalar, n)
 		for i := 0; i < n; i++ {
-			mv[i] = rt.newMagic(cs.X[i])
+			if cs.Stale > 0 {
+				mv[i] = rt.used(cs.X[i], n, cs.Stale, 0.25+float64(i))
+			} else {
+				mv[i] = rt.newMagic(cs.X[i])
+			}
 			vars[i] = mv[i]
 		}
-		if err := ad.Variables(cs.Order, mv...); err != nil {
+		if err := rt.activate(cs.Act, cs.Order, mv); err != nil {
 			panic(err)
 		}
 	}
@@ -171,11 +200,42 @@ func (rt *libRT) run(p *Program, cs *Case, ext []ad.ConstScalar) (out runOut) {
 		cur = i
 		in := &p.Ins[i]
 		o := ops[in.Op]
-		dst := rt.temp(n, cs.Pollute, float64(i))
+		// in-place forms: the destination is the object of an operand. A function handed to
+		// Matrix.Hessian/Jacobian (ext != nil) must not overwrite its argument: SSA form there.
+		alias := in.Dst
+		if ext != nil {
+			alias = ""
+		}
+		var a, b ad.ConstScalar
+		switch o.Kind {
+		case Unary:
+			a = get(in.A)
+		case Binary:
+			a = get(in.A)
+			if alias == "ab" {
+				b = a
+			} else {
+				b = get(in.B)
+			}
+		}
+		var dst ad.MagicScalar
+		switch alias {
+		case "a", "ab":
+			dst = a.(ad.MagicScalar)
+		case "b":
+			dst = b.(ad.MagicScalar)
+		default:
+			dst = rt.temp(n, cs.Pollute, float64(i))
+		}
+		if t, ok := in.target(); ok && alias != "" && t.K == 'R' {
+			// the object of an earlier register is about to be overwritten: keep a copy of that
+			// register's result for the comparison (every register is compared, in order, so a wrong
+			// result is attributed to the instruction that produced it)
+			out.regs[t.I] = out.regs[t.I].CloneMagicScalar()
+		}
 		var d ad.Scalar = dst
 		switch o.Kind {
 		case Unary:
-			a := get(in.A)
 			switch o.Name {
 			case "Neg":
 				d.Neg(a)
@@ -231,7 +291,6 @@ func (rt *libRT) run(p *Program, cs *Case, ext []ad.ConstScalar) (out runOut) {
 				panic("run: unknown unary " + o.Name)
 			}
 		case Binary:
-			a, b := get(in.A), get(in.B)
 			switch o.Name {
 			case "Add":
 				d.Add(a, b)
@@ -297,6 +356,7 @@ const tolK = 64.0
 
 type failure struct {
 	key, what string
+	reg       int // index of the failing register (instruction)
 }
 
 type checker struct {
@@ -384,6 +444,8 @@ type cmpStats struct {
 	checkedRegs int
 	nontrivial  bool
 	status      string // outcome label of the final register
+	kinks       int    // registers on a kink compared against the hull of the one-sided derivatives
+	nonsmooth   int    // other registers without unique derivatives (domain boundary, downstream of a kink): structure only
 }
 
 // compareRegs checks every register of a finished run against the model. Returns the
@@ -400,9 +462,19 @@ func compareRegs(m *Model, p *Program, cs *Case, out *runOut, jets []Jet) (fails
 	defer func() {
 		if r := recover(); r != nil {
 			sig, reg := instrSig(p, len(p.Ins)-1, jets, cs.X)
-			fails = append(fails, failure{fmt.Sprintf("%s|%s|getter-panic|%s", sig, reg, typ), fmt.Sprintf("reading the result panicked: %v", r)})
+			fails = append(fails, failure{fmt.Sprintf("%s|%s|getter-panic|%s", sig, reg, typ), fmt.Sprintf("reading the result panicked: %v", r), len(p.Ins) - 1})
 		}
 	}()
+	illJet := func(j *Jet) bool {
+		ill := vacuous(j.Val.V, tolK*j.Val.E)
+		for i := 0; i < n && !ill; i++ {
+			ill = vacuous(j.G[i].V, tolK*j.G[i].E)
+			for l := 0; l < n && cs.Order >= 2 && !ill; l++ {
+				ill = vacuous(j.H[i][l].V, tolK*j.H[i][l].E)
+			}
+		}
+		return ill
+	}
 	nregs := len(out.regs)
 	for k := 0; k < nregs; k++ {
 		j := &jets[k]
@@ -424,7 +496,7 @@ func compareRegs(m *Model, p *Program, cs *Case, out *runOut, jets []Jet) (fails
 				// an operation's coefficients: keyed by the combinator family only
 				key = fmt.Sprintf("%s|*|%s|%s", family(ops[p.Ins[k].Op]), what, typ)
 			}
-			fails = append(fails, failure{key, fmt.Sprintf("R%d of [%v] at x=%v order=%d pollute=%d: %s", k, p, cs.X, cs.Order, cs.Pollute, msg)})
+			fails = append(fails, failure{key, fmt.Sprintf("R%d of [%v] at x=%v order=%d pollute=%d: %s", k, p, cs.X, cs.Order, cs.Pollute, msg), k})
 		}
 		got := r.GetFloat64()
 		if !within(got, j.Val.V, tolK*j.Val.E) {
@@ -432,24 +504,34 @@ func compareRegs(m *Model, p *Program, cs *Case, out *runOut, jets []Jet) (fails
 			return
 		}
 		if j.Status == stNonsmooth {
+			// kink or boundary of the domain: the derivatives are not unique, but the clauses that
+			// do not depend on a convention still hold (see checkNonsmooth)
 			allFinite = false
 			st.checkedRegs++
+			if !illcond {
+				checkNonsmooth(j, r, n, cs.Order, fail)
+				if j.K != nil {
+					st.kinks++
+				} else {
+					st.nonsmooth++
+				}
+			}
+			if len(fails) > 0 {
+				return
+			}
 			if k == nregs-1 {
-				st.status = "value-only:" + j.Why
+				if j.K != nil {
+					st.status = "kink-bounds:" + j.Why
+				} else {
+					st.status = "value+structure:" + j.Why
+				}
 			}
 			continue
 		}
 		// a register with an ill-conditioned component (cancellation inside the operation) may
 		// legitimately hold non-finite intermediates: neither its derivatives nor those of later
 		// registers are compared, and no exact zeros are demanded
-		ill := illcond
-		for i := 0; i < n && !ill; i++ {
-			ill = vacuous(j.G[i].V, tolK*j.G[i].E)
-			for l := 0; l < n && cs.Order >= 2 && !ill; l++ {
-				ill = vacuous(j.H[i][l].V, tolK*j.H[i][l].E)
-			}
-		}
-		if ill || vacuous(j.Val.V, tolK*j.Val.E) {
+		if illcond || illJet(j) {
 			illcond, allFinite = true, false
 			st.checkedRegs++
 			if k == len(p.Ins)-1 {
@@ -528,7 +610,7 @@ func compareRegs(m *Model, p *Program, cs *Case, out *runOut, jets []Jet) (fails
 		k := out.panicAt
 		if jets[k].Status != stUndefined {
 			// a panic is keyed by the operation only (one key per routine that blows up)
-			fails = append(fails, failure{fmt.Sprintf("%v|*|panic|%s", ops[p.Ins[k].Op], typ), fmt.Sprintf("%v in [%v] at x=%v order=%d pollute=%d panicked: %s", p.Ins[k], p, cs.X, cs.Order, cs.Pollute, out.panicMsg)})
+			fails = append(fails, failure{fmt.Sprintf("%v|*|panic|%s", ops[p.Ins[k].Op], typ), fmt.Sprintf("%v in [%v] at x=%v order=%d pollute=%d panicked: %s", p.Ins[k], p, cs.X, cs.Order, cs.Pollute, out.panicMsg), k})
 			st.status = "panic"
 			return
 		}
@@ -537,11 +619,65 @@ func compareRegs(m *Model, p *Program, cs *Case, out *runOut, jets []Jet) (fails
 	return
 }
 
+// checkNonsmooth: what can be demanded of a register that sits on a kink (Abs at 0, Min/Max tie)
+// or on the boundary of an operation's domain (Sqrt at 0), where the property fixes no derivative:
+//   - the Hessian is symmetric;
+//   - a slot of a variable the register does not depend on never holds a finite nonzero number
+//     (0 times anything is 0 or NaN): that can only be content unrelated to the computation;
+//   - at a kink whose two pieces are smooth (j.K != nil) every slot is finite and lies between
+//     the two one-sided derivatives (tolerance included); independent slots are exactly zero.
+func checkNonsmooth(j *Jet, r ad.MagicScalar, n, order int, fail func(what, msg string)) {
+	dep := func(i int) bool { return j.Deps&(1<<uint(i)) != 0 }
+	finite := func(v float64) bool { return !math.IsNaN(v) && !math.IsInf(v, 0) }
+	K := j.K
+	low := false
+	for i := 0; i < n; i++ {
+		g := r.GetDerivative(i)
+		switch {
+		case !dep(i):
+			if g != 0 && finite(g) {
+				fail("nonzero-independent-slot", fmt.Sprintf("d/dx%d = %v although the register does not depend on x%d (%s)", i, g, i, j.Why))
+			} else if !finite(g) && K != nil {
+				low = true
+				fail(nanTag("d1-kink", g), fmt.Sprintf("d/dx%d = %v at a kink between two finite one-sided derivatives (%s)", i, g, j.Why))
+			}
+		case K != nil:
+			if !(g >= K.GLo[i] && g <= K.GHi[i]) {
+				low = true
+				fail(nanTag("d1-kink", g), fmt.Sprintf("d/dx%d = %v is not between the one-sided derivatives [%v, %v] (%s)", i, g, K.GLo[i], K.GHi[i], j.Why))
+			}
+		}
+	}
+	if order < 2 {
+		return
+	}
+	for i := 0; i < n; i++ {
+		for l := i; l < n; l++ {
+			h, ht := r.GetHessian(i, l), r.GetHessian(l, i)
+			if !sameBits(h, ht) && !(math.IsNaN(h) && math.IsNaN(ht)) {
+				fail("symmetry", fmt.Sprintf("H[%d][%d]=%v but H[%d][%d]=%v (%s)", i, l, h, l, i, ht, j.Why))
+			}
+			switch {
+			case !dep(i) || !dep(l):
+				if (h != 0 && finite(h)) || (ht != 0 && finite(ht)) {
+					fail("nonzero-independent-slot", fmt.Sprintf("H[%d][%d] = %v although the register does not depend on both variables (%s)", i, l, h, j.Why))
+				} else if !finite(h) && K != nil && !low {
+					fail(nanTag("d2-kink", h), fmt.Sprintf("H[%d][%d] = %v at a kink between two finite one-sided derivatives (%s)", i, l, h, j.Why))
+				}
+			case K != nil:
+				if !(h >= K.HLo[i][l] && h <= K.HHi[i][l]) && !low {
+					fail(nanTag("d2-kink", h), fmt.Sprintf("H[%d][%d] = %v is not between the one-sided second derivatives [%v, %v] (%s)", i, l, h, K.HLo[i][l], K.HHi[i][l], j.Why))
+				}
+			}
+		}
+	}
+}
+
 // helperChecks: GetGradient / GetHessian / CopyGradient / CopyHessian agree with the per-slot getters.
 func helperChecks(rt *libRT, p *Program, cs *Case, res ad.MagicScalar) (fails []failure) {
 	sig := ops[p.Ins[len(p.Ins)-1].Op].String()
 	fail := func(what, msg string) {
-		fails = append(fails, failure{fmt.Sprintf("%s|helpers|%s|%s", sig, what, cs.Type), fmt.Sprintf("[%v] at x=%v order=%d: %s", p, cs.X, cs.Order, msg)})
+		fails = append(fails, failure{fmt.Sprintf("%s|helpers|%s|%s", sig, what, cs.Type), fmt.Sprintf("[%v] at x=%v order=%d: %s", p, cs.X, cs.Order, msg), len(p.Ins) - 1})
 	}
 	defer func() {
 		if r := recover(); r != nil {
@@ -600,10 +736,18 @@ func helperChecks(rt *libRT, p *Program, cs *Case, res ad.MagicScalar) (fails []
 
 // matrixHelperChecks: Matrix.Hessian / Matrix.Jacobian evaluate the program as a function
 // and must reproduce what the directly activated run reports through the per-slot getters.
-func matrixHelperChecks(rt *libRT, p *Program, cs *Case) (fails []failure) {
+// stale 1/2: the argument vector handed to the helpers still carries the gradient / Hessian of
+// an earlier order-1/2 computation (the helpers clone it and activate the clone).
+func matrixHelperChecks(rt *libRT, p *Program, cs *Case, stale int) (fails []failure) {
 	sig := ops[p.Ins[len(p.Ins)-1].Op].String()
 	fail := func(what, msg string) {
-		fails = append(fails, failure{fmt.Sprintf("%s|helpers|%s|%s", sig, what, cs.Type), fmt.Sprintf("[%v] at x=%v: %s", p, cs.X, msg)})
+		key := fmt.Sprintf("%s|helpers|%s|%s", sig, what, cs.Type)
+		if stale > 0 {
+			// only reached when the helpers agree on a fresh argument: keyed by the route, not by the operation
+			key = fmt.Sprintf("reactivation|%s(argument-with-stale-derivatives)|%s", what, cs.Type)
+			msg += fmt.Sprintf(" (argument carries derivatives of an earlier order-%d computation; with a fresh argument the helper agrees)", stale)
+		}
+		fails = append(fails, failure{key, fmt.Sprintf("[%v] at x=%v: %s", p, cs.X, msg), len(p.Ins) - 1})
 	}
 	defer func() {
 		if r := recover(); r != nil {
@@ -615,6 +759,7 @@ func matrixHelperChecks(rt *libRT, p *Program, cs *Case) (fails []failure) {
 	c1, c2 := *cs, *cs
 	c1.Order, c2.Order = 1, 2
 	c1.Pollute, c2.Pollute = 0, 0
+	c1.Stale, c2.Stale, c1.Act, c2.Act = 0, 0, "", ""
 	d1, d2 := rt.run(p, &c1, nil), rt.run(p, &c2, nil)
 	if d1.panicAt >= 0 || d2.panicAt >= 0 {
 		return
@@ -622,7 +767,11 @@ func matrixHelperChecks(rt *libRT, p *Program, cs *Case) (fails []failure) {
 	r1, r2 := d1.regs[len(d1.regs)-1], d2.regs[len(d2.regs)-1]
 	xs := make([]ad.MagicScalar, n)
 	for i := range xs {
-		xs[i] = rt.newMagic(cs.X[i])
+		if stale > 0 {
+			xs[i] = rt.used(cs.X[i], n, stale, 0.25+float64(i))
+		} else {
+			xs[i] = rt.newMagic(cs.X[i])
+		}
 	}
 	x := rt.asMagicV(xs)
 	var inner string
